@@ -351,6 +351,9 @@ impl Ctx {
         };
         if base.beh.contains("result=err") {
             self.rep.bump("base_runtime_error");
+            let msg = base.beh.split("result=err ").nth(1).unwrap_or("");
+            let short: String = msg.chars().map(|c| if c.is_ascii_digit() { '#' } else { c }).take(48).collect();
+            self.rep.bump(&format!("base_error={}", short));
         }
         if base.beh.contains("PANIC") {
             self.rep.bump("base_runtime_panic");
